@@ -202,6 +202,55 @@ def chain_abandoned_sweep():
     return out
 
 
+def force_reset_family(ns=(1, 3, 4)):
+    """ForceResetHeight (blockchain.forceresetheight, bootLoader.load(resetHeight)).
+    Shadow sweep: round-robin chain, and at the last two heights a shadow restart ["F", node, h]
+    for EVERY reset height h = 1..best+1 (so h = LIB-1, LIB, LIB+1, best are all there whatever
+    the LIB is).  Real resets: for every h = 1..best a scenario ["FR", node, h] (the chain DB drops
+    the blocks above h, the status boots with resetHeight h), followed by a branch that forks 1 or
+    2 blocks below h and outgrows the reset chain, then two more children of the old block h."""
+    out = []
+    for n in ns:
+        L = 3 * n + 4
+        t = Tree()
+        tip = 0
+        for i in range(1, L + 1):
+            tip = t.mk(tip, i % n)
+            t.ops.append(["D", 0, tip])
+            if i >= L - 1:
+                for h in range(1, i + 2):
+                    t.ops.append(["F", 0, h])
+        out.append({"n": n, "nodes": 1, "self": [-1], "ops": t.ops, "shape": "force reset shadow sweep n=%d" % n})
+        for h in range(1, L + 1):
+            for back in (1, 2):
+                f = h - back
+                if f < 0:
+                    continue
+                t = Tree()
+                main = [0]
+                for i in range(1, L + 1):
+                    main.append(t.mk(main[-1], i % n))
+                    t.ops.append(["D", 0, main[-1]])
+                t.ops.append(["FR", 0, h])
+                # what the producers know after the reset: their last block still on the chain
+                t.lpb = {}
+                for i in range(1, h + 1):
+                    t.lpb[i % n] = i
+                keep = dict(t.lpb)
+                br = main[f]
+                for k in range(1, back + 2):
+                    br = t.mk(br, (f + k + 1) % n, None, track=False)
+                    t.ops.append(["D", 0, br])
+                t.lpb = keep
+                tip = main[h]
+                for k in range(1, 3):
+                    tip = t.mk(tip, (h + k) % n)
+                    t.ops.append(["D", 0, tip])
+                out.append({"n": n, "nodes": 1, "self": [-1], "ops": t.ops,
+                            "shape": "real force reset n=%d height=%d, branch forking at %d" % (n, h, f)})
+    return out
+
+
 def crash_scenario(rng, n, byz=0.0):
     """Fork histories in which every delivery that triggers a reorganisation crashes inside
     reorg.swapChain at stop point 2 (marker written) or 3 (chain mapping and status swapped, marker
@@ -739,6 +788,7 @@ def generate(rng, quick):
         n = rng.choice([3, 4, 4, 5, 6, 7])
         sc.append(forks(rng, n, rng.randrange(2, 6), byz=0.3, restart=rng.choice(["none", "mixed", "shadow"])))
     sc += abandoned_reorg_sweep(4) + ([] if quick else abandoned_reorg_sweep(3))
+    sc += force_reset_family((1, 3, 4) if quick else (1, 2, 3, 4, 5, 7))
     for _ in range(6 * k):
         sc.append(fail_scenario(rng, rng.choice([1, 2, 3, 4, 4, 5]), byz=rng.choice([0.0, 0.0, 0.3]), restart=rng.random() < 0.5))
     for _ in range(5 * k):
